@@ -105,6 +105,9 @@ def tree_hash(db, overlay=None):
         h.update(db[f]['command'].encode())
     with open(XVFACTS, 'rb') as fh:
         h.update(hashlib.sha256(fh.read()).digest())
+    for f in sorted(glob.glob(os.path.join(VERIF, 'fixtures', '*.cpp'))):
+        with open(f, 'rb') as fh:
+            h.update(hashlib.sha256(fh.read()).digest())
     if overlay:
         for k in sorted(overlay):
             h.update(k.encode())
@@ -174,6 +177,17 @@ def extract(scope='lib', overlay=None, force=False):
             for b, e in errs[:3]:
                 log('extraction failed for batch', b[:2], e)
             raise AnalysisBroken('xvfacts failed on %d batches: %s' % (len(errs), errs[0][1][-500:]))
+        # checker fixtures: tiny positive / negative examples every zero-count rule must (not) match, parsed with the same tool
+        fx = sorted(glob.glob(os.path.join(VERIF, 'fixtures', '*.cpp')))
+        if fx:
+            fdb = [{'directory': os.path.join(VERIF, 'fixtures'), 'file': f, 'command': 'c++ -std=gnu++14 -I%s/src -c %s' % (REPO, f)} for f in fx]
+            fxdir = os.path.join(out, 'fx')
+            os.makedirs(fxdir)
+            with open(os.path.join(fxdir, 'compile_commands.json'), 'w') as f:
+                json.dump(fdb, f)
+            r = subprocess.run([XVFACTS, '-p', fxdir, '-o', out, '--root', os.path.join(VERIF, 'fixtures') + '/', '--extra-arg=-w'] + fx, stdout=subprocess.DEVNULL, stderr=subprocess.PIPE, text=True, cwd=out)
+            if r.returncode != 0:
+                raise AnalysisBroken('xvfacts failed on the checker fixtures: ' + r.stderr[-500:])
         log('extracted %d units in %.1fs' % (len(units), time.time() - t0))
         merge(out)
         open(os.path.join(out, 'DONE'), 'w').write(key)
